@@ -69,6 +69,19 @@ def corpus_run(tier):
     return _run_cache[tier]
 
 
+def report_anomalies(ctx):
+    """corpus grammars for which the real generator emits rule! arguments outside what Model/Translate.v describes (e.g. an
+    `ignored` type other than generics::Skipped, i.e. a different trailing skip): the model does not cover that output"""
+    seen = set()
+    for (name, text, opts, what) in dcorp.ANOMALIES:
+        if text in seen or len(seen) >= 3:
+            continue
+        seen.add(text)
+        ctx.violation("the generator emits rule! arguments outside the generator model (%s)" % (what,),
+                      {"grammar": text, "options": opts, "anomalies": what,
+                       "broken": "V1 extract(generator(g)) is not in the image of Model/Translate.v"}, found_input=False)
+
+
 # ------------------------------------------------------------ WHITESPACE / COMMENT forced atomic: the spec variant
 def map_skip(t, f):
     if isinstance(t, tuple):
@@ -232,6 +245,7 @@ def analyze(ctx, tier, observable):
     from .common import load_known_findings
     dgs, run = corpus_run(tier)
     by = {g.name: g for g in dgs}
+    report_anomalies(ctx)
     for p in run.problems:
         ctx.violation("runner problem (124 = a parse did not return: watchdog): " + p, {"problem": p}, found_input=False)
     pending = []          # (gname, sid, hx, impl_line, what, typed_obs, spec_obs)
